@@ -29,7 +29,7 @@ fn seeds(f: Fmt) -> Vec<&'static str> {
 fn dictionary(f: Fmt) -> Vec<&'static str> {
     let mut d = vec!["<", ">", "\"", "\\", "\\u", "\\U0010FFFF", "\\u0000", "%", "%zz", "#", "?", "_:", "_:.", "_:a..b", "@", "@en-", "@e1-", "^^", "\n", "\r", " ", "\u{0}", "\u{FFFE}", "\u{10FFFF}", "é", "\u{200D}", "@en-x-a", "@fr-u-co-phonebk", "@x-a-b", "@a-1", "@de-t-m0-und", "_:a.-b", "_:a.\u{b7}b", "_:a.\u{300}b", "_:a.\u{203f}b", "_:a-.b", "_:\u{37f}.\u{2040}", "http://[::1]/", "http://[1:2::3]/", "http://[v1.x]/", "http://a:b/", "s://a:b/", "//", "/..", "1e", ".", ":", "a:b"];
     match f {
-        Fmt::Turtle | Fmt::Trig | Fmt::Gtrig => d.extend(["<<", ">>", "{|", "|}", "[", "]", "(", ")", "@prefix", "@base", "PREFIX", "BASE", "GRAPH", "{", "}", ";", ",", "a", "true", "'''", "\"\"\"", "+1.", "-.5", "1E+", "?v", "$v", ":\\~", ":%41", "p:"]),
+        Fmt::Turtle | Fmt::Trig | Fmt::Gtrig => d.extend(["<<", ">>", "{|", "|}", "[", "]", "(", ")", "@prefix", "@base", "PREFIX", "BASE", "GRAPH", "{", "}", ";", ",", "a", "true", "'''", "\"\"\"", "+1.", "-.5", "1E+", "?v", "$v", ":\\~", ":%41", "p:", ":a\\%b", "\\%"]),
         Fmt::Gnq | Fmt::Nq | Fmt::Nt => d.extend(["<<", ">>", "?v", "$"]),
         Fmt::Xml => d.extend(["<!--", "-->", "<![CDATA[", "]]>", "&amp;", "&#0;", "&#xD;", "&unk;", "xmlns:rdf=\"x]y\"", "rdf:about=\"", "rdf:nodeID=\"1 x\"", "rdf:nodeID=\"b1.\"", "rdf:nodeID=\"a.\"", "xml:lang=\"!!\"", "rdf:parseType=\"Literal\"", "<rdf:li/>", "</", "/>", "<?pi?>", "<!DOCTYPE a [<!ENTITY e \"v\">]>", "rdf:ID=\"a b\"", "xml:base=\"::\""]),
         Fmt::JsonLd => d.extend(["{", "}", "[", "]", ":", ",", "null", "\"@id\"", "\"@type\"", "\"@list\"", "\"@set\"", "\"@graph\"", "\"@value\"", "\"@language\"", "\"@context\"", "\"@reverse\"", "\"@nest\"", "\"@vocab\"", "\"@base\"", "\"http://remote.example/ctx\"", "\"_:b\"", "\"!!\"", "1e999", "\\ud800"]),
